@@ -323,23 +323,8 @@ macro_rules! impl_ChunkCacheLruChunkLimitThreadLocal {
             self.cache().lock().unwrap().push(chunk_indices, chunk);
         }
 
-        fn try_get_or_insert_with<F, E>(
-            &self,
-            chunk_indices: Vec<u64>,
-            f: F,
-        ) -> Result<Arc<$ct>, Arc<ArrayError>>
-        where
-            F: FnOnce() -> Result<Arc<$ct>, ArrayError>,
-        {
-            #[cfg(zarrs_verif)]
-            verif_probe_lock(self.cache());
-            self.cache()
-                .lock()
-                .unwrap()
-                .try_get_or_insert(chunk_indices, f)
-                .cloned()
-                .map_err(|e| Arc::new(e))
-        }
+        // `try_get_or_insert_with` is the trait default (get, fill, insert): the thread-local lock must not
+        // be held while the fill closure runs, since it may run rayon work that re-enters this cache
 
         fn len(&self) -> usize {
             self.cache().lock().unwrap().len()
